@@ -37,6 +37,11 @@ func TestVerif(t *testing.T) {
 		lockHelperMain() // C35: this process plays the third database handle
 		return
 	}
+	// The zstd encoder/decoder are process-wide singletons with internal channels: create them here,
+	// outside any synctest bubble, so that every bubble may use them.
+	if c, err := y.ZSTDCompress(nil, []byte("warm-up"), 1); err == nil {
+		_, _ = y.ZSTDDecompress(nil, c)
+	}
 	j, err := vlib.ReadJob()
 	if err != nil {
 		t.Fatalf("bad job: %v", err)
